@@ -31,7 +31,7 @@ def cid(n):
 def sid_hash(units):
     M = (1 << 64) - 1; h = 0x1E3779B97F4A7C15 ^ len(units)
     for c in units: h = (((h << 7) | (h >> 57)) & M) ^ c
-    return h | (1 << 63)
+    return h
 def check_sid_injective(literals):
     """mirror of vpl_hash16 in models/qt_core.c: every prefix (len > 3) of every literal of the translated program must get its own id"""
     seen = {}
